@@ -167,7 +167,7 @@ func c11Relayout(stmt string, kwCase int, sep string) string {
 	for i := 0; i < len(stmt); {
 		c := stmt[i]
 		switch {
-		case c == '\'' || c == '`':
+		case c == '\'' || c == '`' || c == '"':
 			j := i + 1
 			for j < len(stmt) && stmt[j] != c {
 				j++
@@ -225,7 +225,7 @@ func c11RenameText(t string, m map[string]string) string {
 	for i := 0; i < len(t); {
 		c := t[i]
 		switch {
-		case c == '\'' || c == '`':
+		case c == '\'' || c == '`' || c == '"':
 			j := i + 1
 			for j < len(t) && t[j] != c {
 				j++
@@ -283,7 +283,9 @@ func c11Stmts(tier string) []c11Stmt {
 	type wh struct{ sql, low string }
 	wheres := []wh{{"", ""}, {"a > 1", "a > 1"}, {"s = 'x' AND a <= 2", "s == 'x' && a <= 2"},
 		{"note = 'LIMIT 5'", "note == 'LIMIT 5'"}, {"note = 'ORDER BY x'", "note == 'ORDER BY x'"}, {"note = 'a WHERE b'", "note == 'a WHERE b'"},
-		{"note = 'FROM' OR a != 3", "note == 'FROM' || a != 3"}, {"note = 'GROUP BY k HAVING 1'", "note == 'GROUP BY k HAVING 1'"}}
+		{"note = 'FROM' OR a != 3", "note == 'FROM' || a != 3"}, {"note = 'GROUP BY k HAVING 1'", "note == 'GROUP BY k HAVING 1'"},
+		// a literal of one quote kind that contains the other kind (and keywords behind it)
+		{"note = 'say \"hi\" LIMIT 1'", "note == 'say \"hi\" LIMIT 1'"}, {"note = \"it's ORDER BY\" AND a > 0", "note == \"it's ORDER BY\" && a > 0"}}
 	// direct queries
 	directItems := []struct{ items, names []string }{
 		{[]string{"a"}, []string{"a"}},
@@ -607,7 +609,8 @@ func (c11) Run(u fw.Unit) fw.Result {
 			}
 			// execution equivalence of two layouts for direct queries
 			if s.Window == "" && s.Join == "" && (si%5 == 0 || s.Renamed != nil) {
-				rows := []Row{{"a": 2, "b": 1, "s": "x", "note": "LIMIT 5", "order": 1, "limit": 2}, {"a": 1, "b": 2, "s": "y", "note": "FROM", "order": 3, "limit": 4}, {"a": 3, "b": 3, "s": "x", "note": "ORDER BY x", "order": 5, "limit": 6}}
+				rows := []Row{{"a": 2, "b": 1, "s": "x", "note": "LIMIT 5", "order": 1, "limit": 2}, {"a": 1, "b": 2, "s": "y", "note": "FROM", "order": 3, "limit": 4}, {"a": 3, "b": 3, "s": "x", "note": "ORDER BY x", "order": 5, "limit": 6},
+					{"a": 4, "b": 1, "s": "y", "note": "say \"hi\" LIMIT 1", "order": 7, "limit": 8}, {"a": 5, "b": 2, "s": "x", "note": "it's ORDER BY", "order": 9, "limit": 10}}
 				if s.Renamed != nil {
 					var rr []Row
 					for _, row := range rows {
@@ -803,7 +806,7 @@ func c11Shape(s c11Stmt) string {
 func (c11) Describe(tier string) fw.Description {
 	return fw.Description{
 		Level: "model_checking",
-		Rule: "(a) totality: every token string of length 1..n over a 25-token alphabet (keywords, identifiers, literals, punctuation, a window call, a lone quote, a lone backtick) and every byte string of length 0..m over 16 hostile bytes appended to 6 valid prefixes is parsed (rsql.Parse) under panic capture and a hang watchdog (20 s of CPU time on one input); (b) fidelity: every statement generated from the documented grammar (DISTINCT, 5+1 select lists with aliases/backticked keyword identifiers/keyword-bearing literals, FROM alias, INNER/LEFT JOIN, 8 WHERE clauses incl. string literals containing LIMIT / ORDER BY / WHERE / FROM / GROUP BY, 5 window kinds, 3 HAVING, 3 WITH option sets, 6 ORDER BY lists (explicit and implicit directions mixed), LIMIT; a third of them again with two sets of keyword-bearing identifiers such as orders, fromage, description, group1, isActive, nullable, whereabouts) is parsed and the returned configuration compared field by field with what was written; (b2) 108 MATCH_RECOGNIZE statements (PARTITION BY 0..2 columns, MEASURES, ONE/ALL ROWS PER MATCH, every AFTER MATCH SKIP form, 3 patterns, DEFINE incl. a literal containing DEFINE) with the clause compared field by field; (c) layout: each statement in 3 keyword cases x 4 separators must give a deep-equal configuration, and equal EmitSync results for a subset; non-trivial = the input was accepted",
+		Rule: "(a) totality: every token string of length 1..n over a 25-token alphabet (keywords, identifiers, literals, punctuation, a window call, a lone quote, a lone backtick) and every byte string of length 0..m over 16 hostile bytes appended to 6 valid prefixes is parsed (rsql.Parse) under panic capture and a hang watchdog (20 s of CPU time on one input); (b) fidelity: every statement generated from the documented grammar (DISTINCT, 5+1 select lists with aliases/backticked keyword identifiers/keyword-bearing literals, FROM alias, INNER/LEFT JOIN, 10 WHERE clauses incl. string literals containing LIMIT / ORDER BY / WHERE / FROM / GROUP BY and the other quote character, 5 window kinds, 3 HAVING, 3 WITH option sets, 6 ORDER BY lists (explicit and implicit directions mixed), LIMIT; a third of them again with two sets of keyword-bearing identifiers such as orders, fromage, description, group1, isActive, nullable, whereabouts) is parsed and the returned configuration compared field by field with what was written; (b2) 108 MATCH_RECOGNIZE statements (PARTITION BY 0..2 columns, MEASURES, ONE/ALL ROWS PER MATCH, every AFTER MATCH SKIP form, 3 patterns, DEFINE incl. a literal containing DEFINE) with the clause compared field by field; (c) layout: each statement in 3 keyword cases x 4 separators must give a deep-equal configuration, and equal EmitSync results for a subset; non-trivial = the input was accepted",
 		Bounds:      map[string]any{"token_len": map[string]int{"quick": 5, "thorough": 6}, "byte_len": map[string]int{"quick": 4, "thorough": 5}},
 		Assumptions: []string{"the grammar is the one accepted by rsql.Parser (clause order HAVING, WITH, ORDER BY, LIMIT; '*' only as the first select item)", "hang = a single Parse taking more than 5 s of wall clock"},
 	}
